@@ -205,16 +205,17 @@ Section WithEnv.
     | None => Ok (el1, cur, false)
     end.
 
-  (* hash_lookup — elfio_symbols.hpp:392-427 *)
+  (* hash_lookup — elfio_symbols.hpp (after the C18 fix: the table is
+     validated first, the walk is bounded by nchain) *)
   Fixpoint sysv_walk (fuel : list N) (el : elfio) (symsec : N) (hp : ptr) (enc : endian)
-           (name : bytes) (nbucket nchain y : N) (cur : symview) : res (elfio * symview) :=
-    if negb (bytes_eqb (sv_name cur) name) && negb (y =? 0) && (y <? nchain) then
+           (name : bytes) (nbucket nchain y : N) (steps : N) (cur : symview) : res (elfio * symview) :=
+    if negb (bytes_eqb (sv_name cur) name) && negb (y =? 0) && (y <? nchain) && (steps <? nchain) then
       match fuel with
       | [] => Fault Hang
       | _ :: f =>
-          y1 <- rd_word enc hp (wrap32 (2 + nbucket + y) * 4) 4 ;;
+          y1 <- rd_word enc hp ((2 + nbucket + y) * 4) 4 ;;
           '(el1, cur1, _) <- walk_get el symsec y1 cur ;;
-          sysv_walk f el1 symsec hp enc name nbucket nchain y1 cur1
+          sysv_walk f el1 symsec hp enc name nbucket nchain y1 (steps + 1) cur1
       end
     else Ok (el, cur).
 
@@ -223,19 +224,26 @@ Section WithEnv.
   Definition hash_lookup (el : elfio) (symsec hashsec : N) (name : bytes) : res (elfio * option symview) :=
     '(el1, hp, hs) <- sec_data el hashsec ;;
     let enc := el_enc el1 in
-    nbucket <- rd_word enc hp 0 4 ;;
-    nchain <- rd_word enc hp 4 4 ;;
-    let val := elf_hash name in
-    if nbucket =? 0 then Fault DivZero else
-    y <- rd_word enc hp ((2 + val mod nbucket) * 4) 4 ;;
-    '(el2, cur, _) <- walk_get el1 symsec y empty_view ;;
-    let fuel := match hp with Some b => b | None => [] end in
-    '(el3, cur1) <- sysv_walk (0 :: fuel) el2 symsec hp enc name nbucket nchain y cur ;;
-    Ok (el3, if bytes_eqb (sv_name cur1) name then Some cur1 else None).
+    match hp with
+    | None => Ok (el1, None)
+    | Some hb =>
+        if sh_size hs <? 8 then Ok (el1, None) else
+        nbucket <- rd_word enc hp 0 4 ;;
+        nchain <- rd_word enc hp 4 4 ;;
+        if (nbucket =? 0) || (sh_size hs <? (2 + nbucket + nchain) * 4) then Ok (el1, None) else
+        let val := elf_hash name in
+        y <- rd_word enc hp ((2 + val mod nbucket) * 4) 4 ;;
+        '(el2, cur, _) <- walk_get el1 symsec y empty_view ;;
+        '(el3, cur1) <- sysv_walk (count_fuel nchain) el2 symsec hp enc name nbucket nchain y 0 cur ;;
+        Ok (el3, if bytes_eqb (sv_name cur1) name then Some cur1 else None)
+    end.
 
-  (* gnu_hash_lookup<T> — elfio_symbols.hpp:441-505; T is 32 or 64 bits wide *)
+  (* gnu_hash_lookup<T> — elfio_symbols.hpp (after the C18 fix: header, bloom
+     filter, bucket array and every chain entry are checked against the
+     section size); T is 32 or 64 bits wide *)
   Fixpoint gnu_walk (fuel : list N) (el : elfio) (symsec : N) (hp : ptr) (enc : endian) (name : bytes)
-           (chains_off symoffset hash chain_index chain_hash : N) (symname : bytes) : res (elfio * option symview) :=
+           (chains_off chains_num symoffset hash chain_index chain_hash : N) (symname : bytes)
+    : res (elfio * option symview) :=
     match fuel with
     | [] => Fault Hang
     | _ :: f =>
@@ -255,8 +263,10 @@ Section WithEnv.
             if N.land chain_hash 1 =? 1 then Ok (el1, None)
             else
               let ci := wrap32 (chain_index + 1) in
-              ch <- rd_word enc hp (chains_off + ci * 4) 4 ;;
-              gnu_walk f el1 symsec hp enc name chains_off symoffset hash ci ch symname1
+              if chains_num <=? ci then Ok (el1, None)
+              else
+                ch <- rd_word enc hp (chains_off + ci * 4) 4 ;;
+                gnu_walk f el1 symsec hp enc name chains_off chains_num symoffset hash ci ch symname1
         end
     end.
 
@@ -265,28 +275,34 @@ Section WithEnv.
     let enc := el_enc el1 in
     let tb := if class32 el1 then 4 else 8 in     (* sizeof(T) *)
     let tbits := 8 * tb in
-    nbuckets <- rd_word enc hp 0 4 ;;
-    symoffset <- rd_word enc hp 4 4 ;;
-    bloom_size <- rd_word enc hp 8 4 ;;
-    bloom_shift <- rd_word enc hp 12 4 ;;
-    let hash := elf_gnu_hash name in
-    if bloom_size =? 0 then Fault DivZero else
-    let bloom_index := (hash / tbits) mod bloom_size in
-    let bloom_bits := N.lor (N.shiftl 1 (hash mod tbits))
-                            (N.shiftl 1 ((N.shiftr hash (bloom_shift mod 32)) mod tbits)) in
-    bw <- rd_word enc hp (16 + bloom_index * tb) (N.to_nat tb) ;;
-    if negb (N.land bw bloom_bits =? bloom_bits) then Ok (el1, None) else
-    if nbuckets =? 0 then Fault DivZero else
-    let bucket := hash mod nbuckets in
-    let buckets_off := 16 + bloom_size * tb in
-    let chains_off := buckets_off + nbuckets * 4 in
-    bv <- rd_word enc hp (buckets_off + bucket * 4) 4 ;;
-    if symoffset <=? bv then
-      let ci := wrap32 (bv - symoffset) in
-      ch <- rd_word enc hp (chains_off + ci * 4) 4 ;;
-      let fuel := match hp with Some b => b | None => [] end in
-      gnu_walk (0 :: fuel) el1 symsec hp enc name chains_off symoffset hash ci ch []
-    else Ok (el1, None).
+    match hp with
+    | None => Ok (el1, None)
+    | Some hb =>
+        if sh_size hs <? 16 then Ok (el1, None) else
+        nbuckets <- rd_word enc hp 0 4 ;;
+        symoffset <- rd_word enc hp 4 4 ;;
+        bloom_size <- rd_word enc hp 8 4 ;;
+        bloom_shift <- rd_word enc hp 12 4 ;;
+        let buckets_off := 16 + bloom_size * tb in
+        let chains_off := buckets_off + nbuckets * 4 in
+        if (nbuckets =? 0) || (bloom_size =? 0) || (32 <=? bloom_shift) || (sh_size hs <? chains_off)
+        then Ok (el1, None) else
+        let chains_num := (sh_size hs - chains_off) / 4 in
+        let hash := elf_gnu_hash name in
+        let bloom_index := (hash / tbits) mod bloom_size in
+        let bloom_bits := N.lor (N.shiftl 1 (hash mod tbits))
+                                (N.shiftl 1 ((N.shiftr hash bloom_shift) mod tbits)) in
+        bw <- rd_word enc hp (16 + bloom_index * tb) (N.to_nat tb) ;;
+        if negb (N.land bw bloom_bits =? bloom_bits) then Ok (el1, None) else
+        let bucket := hash mod nbuckets in
+        bv <- rd_word enc hp (buckets_off + bucket * 4) 4 ;;
+        if symoffset <=? bv then
+          let ci := wrap32 (bv - symoffset) in
+          if chains_num <=? ci then Ok (el1, None) else
+          ch <- rd_word enc hp (chains_off + ci * 4) 4 ;;
+          gnu_walk (0 :: hb) el1 symsec hp enc name chains_off chains_num symoffset hash ci ch []
+        else Ok (el1, None)
+    end.
 
   (* get_symbol( name, ... ) — elfio_symbols.hpp:117-153 *)
   Definition get_symbol_by_name (el : elfio) (symsec : N) (name : bytes) : res (elfio * option symview) :=
@@ -383,11 +399,15 @@ Section WithEnv.
   Definition arrange_local_symbols (el : elfio) (symsec : N) : res (elfio * N * list (N * N)) :=
     '(el1, p, s) <- sec_data el symsec ;;
     let count := get_symbols_num el1 s in
+    match p with
+    | None => Ok (el1, 0, [])              (* data not available: nothing is rearranged (C18 fix) *)
+    | Some _ =>
     let fuel := match p with Some b => 0 :: 0 :: b | None => [0; 0] end in
     '(p1, fnl, log) <- arrange_loop fuel p (acls el1) (sh_entsize s) count 1 [] ;;
     match get_sec el1 symsec with
     | None => Fault NullDeref
     | Some s1 => Ok (upd_sec el1 symsec (with_info (with_data s1 p1 (s_data_size s1)) fnl), fnl, log)
+    end
     end.
 
   (* ================= relocations ================= *)
@@ -416,11 +436,15 @@ Section WithEnv.
       if negb (is_rel || is_rela) then Ok None else
       let lay := if is_rel then rel_layout c else rela_layout c in
       if sh_entsize s <? layout_sz lay then Ok None else
+      match p with
+      | None => Ok None                    (* data not available: refused (C18 fix) *)
+      | Some _ =>
       ent <- rd p (wrap64 (index * sh_entsize s)) (layout_sz lay) ;;
       let v := dec_fields enc lay ent in
       let info := nthN v 1 0 in
       let addend := if is_rel then 0 else sext (xw c) (nthN v 2 0) in
-      Ok (Some (mkRelview (nthN v 0 0) (r_sym c info) (r_type c info) addend)).
+      Ok (Some (mkRelview (nthN v 0 0) (r_sym c info) (r_type c info) addend))
+      end.
 
   Definition rel_needs_data (c : cls) (s : section) (index : N) : bool :=
     negb (rel_entries_num s <=? index) &&
@@ -454,10 +478,8 @@ Section WithEnv.
     | None => Fault NullDeref
     | Some s =>
         let symsec := wrap16 (sh_link s) in
-        (* the symbol accessor's constructor dereferences its section while
-           searching for a hash section *)
         match get_sec el1 symsec with
-        | None => match el_secs el1 with [] => Ok (el1, None) | _ => Fault NullDeref end
+        | None => Ok (el1, None)             (* no such symbol table: refused (C18 fix) *)
         | Some _ =>
             match r with
             | None => Ok (el1, None)
@@ -754,7 +776,10 @@ Section WithEnv.
 
   Definition arr_get_core (enc : endian) (s : section) (p : ptr) (w : N) (index : N) : res (option N) :=
     if arr_entries_num s w <=? index then Ok None
-    else v <- rd_word enc p (wrap64 (index * w)) (N.to_nat w) ;; Ok (Some v).
+    else match p with
+         | None => Ok None                  (* data not available: refused (C18 fix) *)
+         | Some _ => v <- rd_word enc p (wrap64 (index * w)) (N.to_nat w) ;; Ok (Some v)
+         end.
 
   Definition arr_get_entry (el : elfio) (sec : N) (w : N) (index : N) : res (elfio * option N) :=
     match get_sec el sec with
@@ -856,8 +881,10 @@ Section WithEnv.
     | Some _ =>
         if wrap32 no <? va_num a then
           '(el1, p, _) <- sec_data el (va_sec a) ;;
-          v <- rd_word host p (wrap32 no * 2) 2 ;;
-          Ok (el1, Some v)
+          match p with
+          | None => Ok (el1, None)          (* data not available: refused (C18 fix) *)
+          | Some _ => v <- rd_word host p (wrap32 no * 2) 2 ;; Ok (el1, Some v)
+          end
         else Ok (el, None)
     end.
   Definition vs_modify (el : elfio) (a : vs_acc) (no value : N) : res (elfio * bool) :=
@@ -867,7 +894,7 @@ Section WithEnv.
         if wrap32 no <? va_num a then
           '(el1, p, s) <- sec_data el (va_sec a) ;;
           match p with
-          | None => Fault NullDeref
+          | None => Ok (el1, false)
           | Some _ =>
               p1 <- wr p (wrap32 no * 2) (enc_uint host 2 (wrap16 value)) ;;
               Ok (upd_sec el1 (va_sec a) (with_data s p1 (s_data_size s)), true)
@@ -916,21 +943,24 @@ Section WithEnv.
         Ok (el3, match r with Some v => wrap32 v | None => 0 end)
     end.
 
-  (* verneed / verdef fields are read in the file's byte order (since the C14 fix).
-     Follow the vn_next / vd_next chain [no] times; [nxt_off] is the offset of
-     the next-field inside the record.  A zero next-field makes all further
-     steps no-ops, so the walk stops there. *)
-  Fixpoint ver_chain (fuel : list N) (enc : endian) (p : ptr) (nxt_off : N) (off : N) (no : N) : res N :=
-    if no =? 0 then Ok off
+  (* verneed / verdef (after the C14 and C18 fixes): fields are read in the
+     file's byte order; every record reached through vn_next / vn_aux must lie
+     inside the section; an invalid string index yields an empty name *)
+  Fixpoint ver_chain (fuel : list N) (enc : endian) (p : ptr) (size recsz nxt_off : N) (off : N) (no : N) : res (option N) :=
+    if no =? 0 then Ok (Some off)
     else
       match fuel with
       | [] => Fault Hang
       | _ :: f =>
           nx <- rd_word enc p (off + nxt_off) 4 ;;
-          if nx =? 0 then Ok off else ver_chain f enc p nxt_off (off + nx) (no - 1)
+          if nx =? 0 then Ok (Some off)               (* no progress: all further steps stay here *)
+          else if size - recsz <? off + nx then Ok None
+          else ver_chain f enc p size recsz nxt_off (off + nx) (no - 1)
       end.
 
   Record verneed_view := mkVN { vn_version : N; vn_file : bytes; vn_hash : N; vn_flags : N; vn_other : N; vn_dep : bytes }.
+
+  Definition str_or_empty (o : option bytes) : bytes := match o with Some b => b | None => [] end.
 
   Definition verneed_get (el : elfio) (sec : N) (num : N) (no : N) : res (elfio * option verneed_view) :=
     match get_sec el sec with
@@ -940,27 +970,27 @@ Section WithEnv.
         else
           '(el1, p, s1) <- sec_data el sec ;;
           match p with
-          | None => Fault NullDeref
+          | None => Ok (el1, None)
           | Some b =>
+              let size := sh_size s1 in
+              if size <? 16 then Ok (el1, None) else
               let enc := el_enc el1 in
-              off <- ver_chain (0 :: b) enc p 12 0 (wrap32 no) ;;
-              aux <- rd_word enc p (off + 8) 4 ;;
-              version <- rd_word enc p off 2 ;;
-              file <- rd_word enc p (off + 4) 4 ;;
-              let ao := off + aux in
-              hash <- rd_word enc p ao 4 ;;
-              flags <- rd_word enc p (ao + 4) 2 ;;
-              other <- rd_word enc p (ao + 6) 2 ;;
-              name <- rd_word enc p (ao + 8) 4 ;;
-              '(el2, fs) <- lookup_str el1 (wrap32 (sh_link s1)) file ;;
-              match fs with
-              | None => Fault NullString
-              | Some fstr =>
+              o <- ver_chain (0 :: b) enc p size 16 12 0 (wrap32 no) ;;
+              match o with
+              | None => Ok (el1, None)
+              | Some off =>
+                  aux <- rd_word enc p (off + 8) 4 ;;
+                  let ao := off + aux in
+                  if size - 16 <? ao then Ok (el1, None) else
+                  file <- rd_word enc p (off + 4) 4 ;;
+                  name <- rd_word enc p (ao + 8) 4 ;;
+                  '(el2, fs) <- lookup_str el1 (wrap32 (sh_link s1)) file ;;
                   '(el3, ds) <- lookup_str el2 (wrap32 (sh_link s1)) name ;;
-                  match ds with
-                  | None => Fault NullString
-                  | Some dstr => Ok (el3, Some (mkVN version fstr hash flags other dstr))
-                  end
+                  version <- rd_word enc p off 2 ;;
+                  hash <- rd_word enc p ao 4 ;;
+                  flags <- rd_word enc p (ao + 4) 2 ;;
+                  other <- rd_word enc p (ao + 6) 2 ;;
+                  Ok (el3, Some (mkVN version (str_or_empty fs) hash flags other (str_or_empty ds)))
               end
           end
     end.
@@ -975,19 +1005,24 @@ Section WithEnv.
         else
           '(el1, p, s1) <- sec_data el sec ;;
           match p with
-          | None => Fault NullDeref
+          | None => Ok (el1, None)
           | Some b =>
+              let size := sh_size s1 in
+              if size <? 20 then Ok (el1, None) else
               let enc := el_enc el1 in
-              off <- ver_chain (0 :: b) enc p 16 0 (wrap32 no) ;;
-              aux <- rd_word enc p (off + 12) 4 ;;
-              flags <- rd_word enc p (off + 2) 2 ;;
-              ndx <- rd_word enc p (off + 4) 2 ;;
-              hash <- rd_word enc p (off + 8) 4 ;;
-              name <- rd_word enc p (off + aux) 4 ;;
-              '(el2, ds) <- lookup_str el1 (wrap32 (sh_link s1)) name ;;
-              match ds with
-              | None => Fault NullString
-              | Some dstr => Ok (el2, Some (mkVD flags ndx hash dstr))
+              o <- ver_chain (0 :: b) enc p size 20 16 0 (wrap32 no) ;;
+              match o with
+              | None => Ok (el1, None)
+              | Some off =>
+                  aux <- rd_word enc p (off + 12) 4 ;;
+                  let ao := off + aux in
+                  if size - 8 <? ao then Ok (el1, None) else
+                  name <- rd_word enc p ao 4 ;;
+                  '(el2, ds) <- lookup_str el1 (wrap32 (sh_link s1)) name ;;
+                  flags <- rd_word enc p (off + 2) 2 ;;
+                  ndx <- rd_word enc p (off + 4) 2 ;;
+                  hash <- rd_word enc p (off + 8) 4 ;;
+                  Ok (el2, Some (mkVD flags ndx hash (str_or_empty ds)))
               end
           end
     end.
